@@ -116,7 +116,7 @@ def run(tier, seed):
         v.add_mc("MC_Grammar_" + st, r, "exhaustive derivations: %d sentences; BudgetOk, IdsDistinct" % len(ex))
         # TLC enumerates (and checks the generator invariants on) every derivation of the budget; the real parser is run
         # on all of them up to a cap per start symbol, beyond it on a seeded sample
-        cap = 600 if quick else 120000
+        cap = 600 if quick else 30000
         if len(ex) > cap:
             rng.shuffle(ex)
             ex = ex[:cap]
@@ -160,10 +160,18 @@ def run(tier, seed):
                     obs["pairs"].remove(hp)
             out.append({"id": c["id"], "start": c["start"], "budget": c["budget"], "choices": c["choices"], "toks": c["toks"], "offs": c["offs"], "obs": obs})
         return out
-    recs = execute(cases)
+    # executed and validated in chunks: the raw results (trees with leaf origins) of several hundred thousand sentences
+    # do not fit into memory at once
     used = set()
-    bad, stats = vlib.tlc_validate("Grammar_Trace.tla", "Grammar_Trace.cfg", recs, tag="c02", shards=8)
-    v.add_tv("Grammar_Trace", stats, len(recs))
+    bad = {}
+    recs = []
+    CH = 40000
+    for k in range(0, len(cases), CH):
+        part = execute(cases[k:k + CH])
+        b, stats = vlib.tlc_validate("Grammar_Trace.tla", "Grammar_Trace.cfg", part, tag="c02", shards=8)
+        v.add_tv("Grammar_Trace", stats, len(part))
+        bad.update(b)
+        recs = part if k + CH >= len(cases) else []          # the last chunk supplies the evidence samples
     by_id = {c["id"]: c for c in cases}
     if bad:
         # cross-property rule (DESIGN.md 2.4): an unexpected parser result is re-run once with an unbounded memo
@@ -199,7 +207,7 @@ def run(tier, seed):
     v.cov["grammar_alternatives"] = len(allalts)
     v.cov["grammar_alternatives_used"] = len(used)
     v.cov["exhaustive_sentences"] = nexh
-    v.cov["samples"] = [{"sentence": c["text"], "expectation_from_spec": "recomputed by Grammar_Trace", "observed_pairs": r["obs"]["pairs"][:12]} for c, r in list(zip(cases, recs))[-3:]]
+    v.cov["samples"] = [{"sentence": c["text"], "expectation_from_spec": "recomputed by Grammar_Trace", "observed_pairs": r["obs"]["pairs"][:12]} for c, r in list(zip(cases[-len(recs):], recs))[-3:]]
     v.assumptions = ["Annex A subset and tracked node kinds of specs/Grammar.tla; PEG-order ambiguities are not generated (DESIGN.md C02)",
                      "rendering: one blank between tokens (trivia is C12's subject)"]
     return v.finish(rule="all derivations up to the growth budget per start symbol with collapsed lexical classes (TLC export), a sweep that uses every "
